@@ -6,7 +6,7 @@
 (* What is enumerated is selected by the constants:                        *)
 (*   Scn     "get" | "set" | "init" | "bad" | "pairs" | "hdr"              *)
 (*           | "nearset" | "nearshared" | "nearinit" | "sentinel"          *)
-(*           | "domain"                                                    *)
+(*           | "domain" | "alias"                                          *)
 (*             (see Near-valid images)                                     *)
 (*   GViews  the views to cover                                            *)
 (*   NRand   number of pseudo-random background images                     *)
@@ -142,11 +142,18 @@ BadOps(v) ==
   \cup (IF v \in InitViews THEN { Op("nullinit", v, "", p, Zero64, "") : p \in InitPaths(v) } ELSE {})
   \cup (IF v \in LegacyViews THEN { Op("nullout", v, f, "legacy", Zero64, "") : f \in FieldNames(v) } ELSE {})
 
+\* result object of a deprecated getter inside the buffer: over the field's own quadlet(s), over the header start, over the
+\* quadlet behind the field (8 spare bytes behind the header so that the object always fits)
+AliasOffs(v, f) == LET q == FStart(v, f) \div 32 IN { 4*q, 0, FStart(v, f) \div 8, 4*q + 4, IF q > 0 THEN 4*q - 4 ELSE 0 }
+AliasOps(v) == IF v \in LegacyViews THEN UNION { { Op("getalias", v, f, "legacy", V64(k), "") : k \in AliasOffs(v, f) } : f \in FieldNames(v) } ELSE {}
+AliasImages(v) == { [a |-> Pat(k, HdrLen[v]) \o Pat(3, 8), h |-> 0, f |-> "", x |-> Zero64] : k \in {1, 2, 5} }
+
 StartImages(v) ==
   CASE Scn \in {"nearset", "nearshared"} -> NearSetImages(v)
     [] Scn = "nearinit" -> IF v \in InitViews THEN NearInitImages(v) ELSE {}
     [] Scn = "sentinel" -> SentinelImages(v)
     [] Scn = "domain"   -> DomainImages(v)
+    [] Scn = "alias"    -> AliasImages(v)
     [] OTHER -> { [a |-> s.a, h |-> s.h, f |-> "", x |-> Zero64] : s \in PlainImages(v) }
 
 OpsTable ==      \* constant-level: evaluated once per view
@@ -158,6 +165,7 @@ OpsTable ==      \* constant-level: evaluated once per view
        [] Scn \in {"nearset", "nearshared"} -> UNION { { Op("set", v, f, p, x, "") : x \in NearVals(FW(v, f)) \cup CarryVals(FW(v, f)), p \in Paths(v) } : f \in NearFields(v) }
        [] Scn = "sentinel" -> GetOps(v)
        [] Scn = "domain"   -> GetOps(v) \cup FewSetOps(v) \cup InitOps(v)
+       [] Scn = "alias"    -> AliasOps(v)
        [] Scn = "bad"   -> BadOps(v)
        [] Scn = "pairs" -> FewSetOps(v) \cup InitOps(v)
        [] Scn = "hdr"   -> GetOps(v) \cup FewSetOps(v) \cup InitOps(v) \cup { Op("payload", v, "", "current", Zero64, "") }
